@@ -101,6 +101,18 @@ def check_realbase(res, fixed, defMode):
 def run_shard(shard, tier, seed):
     res = H.Result(ID)
     rng = C.rng_for(seed, ID, shard['shard'])
+    # contents as long as the values at which a length field grows by an octet (C03's family), both length forms
+    from . import c03
+    for j, (T, v) in enumerate(c03.length_boundary_cases(tier)):
+        if j % C.NSHARDS != shard['shard']:
+            continue
+        try:
+            check_case(res, T, v, [(True, 0), (False, 0), (j % 2 == 0, 1000)])
+            res.see('length-boundary-cases')
+        except Exception:
+            res.see('harness:error')
+            if len(res.inconclusive) < 3:
+                res.inconclusive.append('harness error: ' + H.fmt_exc())
     for i in range(shard['n']):
         if i % 8 == 0:
             try:
